@@ -1,13 +1,35 @@
 import Babble.Proofs.HGOrder
 import Babble.Proofs.HGBlocks
+import Babble.Proofs.DagVote
 /-! # C03 — consensus output is a function of the event DAG only
     Proved here: the deterministic ingredients that make the output independent of process-local
-    state.  The full statement (`round_witness_lamport_order_independent`,
-    `fame_rr_order_independent_static`, `subdag_prefix`) is NOT yet proved; it is decided by the
-    correspondence run (same DAG, many topological orders, sub-DAGs, stores, cache sizes, batchings,
-    Go vs the Lean model vs each other).  See DESIGN.md §3 C03. -/
+    state, and — for a static validator set, on the declarative model `Babble.Dag` that the
+    correspondence run compares with the Go code on every static view — order independence itself:
+    round, witness flag, strongly-see, the votes cast and the fame decisions triggered by an event
+    are functions of the event (its hash-linked ancestry) alone (`values_depend_on_the_event_only`:
+    two nodes that evaluate them over different event sets, in different orders, obtain the same
+    record), the fame of a witness does not depend on who decides it, and the famous witnesses of a
+    decided round are the same on every node (C01), so a node with a downward-closed subset computes
+    a prefix.  NOT proved: the same statement for the operational model `Babble.HG` (stored
+    coordinates and tables; decided by the correspondence run: same DAG, many topological orders,
+    sub-DAGs, stores, cache sizes, batchings, Go vs both Lean models), Lamport timestamps and
+    round-received as Lean theorems.  See DESIGN.md §3 C03. -/
 namespace Babble.Props.C03
 open Babble Babble.HG
+
+/-- **values_depend_on_the_event_only**: two evaluations (`Dag.build`, the executable the Go code is
+    compared with) over any two event lists, in any orders, give the same record — round, witness
+    flag, coordinates, votes, decisions — to the same event tree -/
+theorem values_depend_on_the_event_only (ps : List Nat) (nodes₁ nodes₂ : List Dag.Node)
+    (p₁ p₂ : Nat × List Dag.Rec) (h₁ : p₁ ∈ Dag.build ps nodes₁) (h₂ : p₂ ∈ Dag.build ps nodes₂)
+    (he : Dag.headE p₁.2 = Dag.headE p₂.2) : p₁.2 = p₂.2 := by
+  rw [(Dag.build_ok ps nodes₁ p₁ h₁).1, (Dag.build_ok ps nodes₂ p₂ h₂).1, he]
+
+/-- fame does not depend on the decider, hence not on the order in which deciders were received -/
+theorem fame_independent_of_decider {ps : List Nat} {U : Dag.E → Prop} (H : Dag.Hist ps U) {x y y' : Dag.E}
+    (hx : U x) (hy : U y) (hy' : U y') {b b' : Bool}
+    (h : Dag.decision ps y x = some b) (h' : Dag.decision ps y' x = some b') : b = b' :=
+  Dag.dag_fame_agreement H hx hy hy' h h'
 
 /-- frames are ordered by a key that is independent of the insertion order: whatever order the
     round's events were received in, the committed order is the same -/
